@@ -59,11 +59,22 @@ class ShareDomain:
     def _clone_field(self, e):
         if isinstance(e, ast.Attribute) and isinstance(e.value, ast.Name) and e.value.id == self.clone:
             return self.nm.canon(e.attr)
+        if isinstance(e, ast.Name) and e.id in getattr(self, "aliases", {}):
+            return self.aliases[e.id]
         return None
+
+    def _local_def(self, name):
+        """the single right-hand side a local is bound to, or None"""
+        defs = [n.value for n in ast.walk(self.fi.node) if isinstance(n, ast.Assign) and any(isinstance(t, ast.Name) and t.id == name for t in n.targets)]
+        other = [n for n in ast.walk(self.fi.node) if isinstance(n, ast.Name) and n.id == name and isinstance(n.ctx, ast.Store)]
+        return defs[0] if len(defs) == 1 and len(other) == 1 and name not in self.fi.params else None
 
     def fresh(self, field, v) -> bool:
         """does the expression build a container that shares nothing mutable with the original?"""
         kind = self.containers[field]
+        if isinstance(v, ast.Name):
+            d = self._local_def(v.id)
+            return d is not None and not isinstance(d, ast.Name) and self.fresh(field, d)
         if isinstance(v, (ast.Dict, ast.DictComp)) and kind == "dict":
             if isinstance(v, ast.Dict):
                 return True
@@ -101,8 +112,13 @@ class ShareDomain:
                 if r and r[0] == "class" and r[1].qname == NODE_Q:
                     self.clone, self.kind, self.clone_stmt = t.id, "constructor", s
                     return frozenset()
-            f = self._clone_field(t)
+            f = self._clone_field(t) if isinstance(t, ast.Attribute) else None
             if f is not None and f in self.containers:
+                if isinstance(v, ast.Name) and self._local_def(v.id) is not None:
+                    # the local stays an alias of the clone's container: later appends to it go to the clone
+                    if not hasattr(self, "aliases"):
+                        self.aliases = {}
+                    self.aliases[v.id] = f
                 if self.fresh(f, v):
                     return st - {f}
                 return st | {f}
